@@ -4,7 +4,10 @@
 //     package-level variable with a constant initialiser (LinkBufferCap, ...), as Lean definitions;
 //   - <facts>           : JSON with the same constants plus, per function, a fingerprint of its body
 //     (sha256 of the comment-free, gofmt-normalised source) and the ordered list of synchronisation
-//     operations in it (sync/atomic calls, channel ops, go statements, calls to locker methods);
+//     operations in it (sync/atomic calls, channel ops, go statements, calls to locker methods, user
+//     callback calls, runtime.Gosched, syscall.Close) - enumerated by package syncops, which
+//     tools/instrument uses for its site ids, so "the k-th sync op of f" means the same in both;
+//   - <out>/Life.lean   : the sync lists of the functions the lifecycle model (Netpoll.Conn.Life) mirrors;
 //   - <out>/Fd.lean     : every call site in package netpoll that closes a descriptor or an object wrapping one
 //     (syscall.Close, unix.Close, (*os.File).Close, Close of a package-net object such as net.Listener /
 //     net.Conn, (*netFD).Close), as (file, function, kind, call expression) in source order (property C15).
@@ -27,6 +30,8 @@ import (
 	"strings"
 
 	"golang.org/x/tools/go/packages"
+
+	"verifextract/syncops"
 )
 
 type FuncFact struct {
@@ -215,72 +220,21 @@ func leanName(s string) string {
 	return strings.ReplaceAll(s, ".", "_")
 }
 
-func recvName(fd *ast.FuncDecl) string {
-	if fd.Recv == nil || len(fd.Recv.List) == 0 {
-		return ""
-	}
-	t := fd.Recv.List[0].Type
-	if st, ok := t.(*ast.StarExpr); ok {
-		t = st.X
-	}
-	if id, ok := t.(*ast.Ident); ok {
-		return id.Name
-	}
-	return "?"
+// functions mirrored by lean/Netpoll/Conn/Life.lean (their sync lists go to Gen/Life.lean)
+var lifeFuncs = []string{
+	"locker.closeBy", "locker.isCloseBy", "locker.status", "locker.force", "locker.lock", "locker.unlock", "locker.stop",
+	"connection.onHup", "connection.onClose", "connection.closeCallback", "connection.onConnect", "connection.onDisconnect",
+	"connection.onRequest", "connection.onProcess", "connection.inputAck", "connection.triggerRead", "connection.triggerWrite",
+	"connection.Close", "connection.Detach", "connection.IsActive", "connection.initFinalizer", "connection.onPrepare",
+	"connection.register", "connection.SetOnRequest", "connection.AddCloseCallback",
+	"connection.getState", "connection.setState", "connection.changeState",
+	"FDOperator.Control", "FDOperator.Free", "FDOperator.do", "FDOperator.done", "FDOperator.inuse", "FDOperator.unused",
+	"operatorCache.freeable", "netFD.Close", "UnsafeLinkBuffer.Len", "UnsafeLinkBuffer.recalLen", "server.onAccept",
 }
 
-func exprStr(fset *token.FileSet, e ast.Node) string {
-	var b bytes.Buffer
-	printer.Fprint(&b, fset, e)
-	return strings.Join(strings.Fields(b.String()), " ")
-}
+func recvName(fd *ast.FuncDecl) string { return syncops.RecvName(fd) }
 
-func syncOps(fset *token.FileSet, info *types.Info, body *ast.BlockStmt) []string {
-	var ops []string
-	ast.Inspect(body, func(n ast.Node) bool {
-		switch x := n.(type) {
-		case *ast.GoStmt:
-			ops = append(ops, "go "+exprStr(fset, x.Call.Fun))
-		case *ast.SendStmt:
-			ops = append(ops, "send "+exprStr(fset, x.Chan))
-		case *ast.UnaryExpr:
-			if x.Op == token.ARROW {
-				ops = append(ops, "recv "+exprStr(fset, x.X))
-			}
-		case *ast.SelectStmt:
-			ops = append(ops, "select")
-		case *ast.CallExpr:
-			if sel, ok := x.Fun.(*ast.SelectorExpr); ok {
-				if id, ok := sel.X.(*ast.Ident); ok {
-					if pn, ok := info.Uses[id].(*types.PkgName); ok && pn.Imported().Path() == "sync/atomic" {
-						args := make([]string, len(x.Args))
-						for i, a := range x.Args {
-							args[i] = exprStr(fset, a)
-						}
-						ops = append(ops, "atomic."+sel.Sel.Name+"("+strings.Join(args, ",")+")")
-						return true
-					}
-				}
-				switch sel.Sel.Name {
-				case "lock", "unlock", "stop", "isUnlock", "closeBy", "isCloseBy", "status", "force",
-					"do", "done", "inuse", "unused", "isUnused", "Control", "Free", "Trigger", "Close",
-					"triggerRead", "triggerWrite", "changeState", "setState", "getState", "Lock", "Unlock",
-					"Store", "Load", "Delete", "Range", "Add", "Wait", "Done", "CompareAndSwap":
-					args := make([]string, len(x.Args))
-					for i, a := range x.Args {
-						args[i] = exprStr(fset, a)
-					}
-					ops = append(ops, exprStr(fset, sel)+"("+strings.Join(args, ",")+")")
-				}
-			}
-			if id, ok := x.Fun.(*ast.Ident); ok && id.Name == "close" {
-				ops = append(ops, "close "+exprStr(fset, x.Args[0]))
-			}
-		}
-		return true
-	})
-	return ops
-}
+func exprStr(fset *token.FileSet, e ast.Node) string { return syncops.ExprStr(fset, e) }
 
 func main() {
 	repo := flag.String("repo", "/repo", "")
@@ -350,10 +304,7 @@ func main() {
 					if d.Body == nil {
 						continue
 					}
-					name := d.Name.Name
-					if r := recvName(d); r != "" {
-						name = r + "." + name
-					}
+					name := syncops.FuncName(d)
 					// comment-free normalised source of the whole declaration
 					var b bytes.Buffer
 					cp := *d
@@ -368,7 +319,7 @@ func main() {
 					}
 					facts.Funcs[prefix+name] = FuncFact{
 						Hash: fmt.Sprintf("%x", h[:8]),
-						Sync: syncOps(p.Fset, p.TypesInfo, d.Body),
+						Sync: syncops.Texts(syncops.Ops(p.Fset, p.TypesInfo, d.Body)),
 						File: filepath.Base(p.Fset.Position(d.Pos()).Filename),
 					}
 					if p.Name == "netpoll" {
@@ -448,6 +399,29 @@ func main() {
 		}
 		b.WriteString("\nend Netpoll.Gen\n")
 		if err := os.WriteFile(filepath.Join(*out, "Consts.lean"), []byte(b.String()), 0o644); err != nil {
+			fmt.Fprintln(os.Stderr, err)
+			os.Exit(2)
+		}
+		// sync-operation lists of the functions the lifecycle model mirrors (T-gen tie of Netpoll.Conn.Life)
+		var lb strings.Builder
+		lb.WriteString("/- GENERATED by /verif/tools/extract from /repo on every check run.  Do not edit.\n   Ordered synchronisation operations (package syncops) of the functions Netpoll.Conn.Life mirrors;\n   the k-th entry of sync_<f> is the schedule point with site id \"<f>#k\" of tools/instrument. -/\nnamespace Netpoll.Gen.Life\n\n")
+		for _, n := range lifeFuncs {
+			f, ok := facts.Funcs[n]
+			fmt.Fprintf(&lb, "def sync_%s : List String := [", leanName(n))
+			if ok {
+				for i, t := range f.Sync {
+					if i > 0 {
+						lb.WriteString(",")
+					}
+					fmt.Fprintf(&lb, "\n  %s", leanStr(t))
+				}
+			} else {
+				lb.WriteString("\"<function not found>\"")
+			}
+			lb.WriteString("]\n\n")
+		}
+		lb.WriteString("end Netpoll.Gen.Life\n")
+		if err := os.WriteFile(filepath.Join(*out, "Life.lean"), []byte(lb.String()), 0o644); err != nil {
 			fmt.Fprintln(os.Stderr, err)
 			os.Exit(2)
 		}
